@@ -218,22 +218,36 @@ func buildVerify(f vfeat) {
 	if f.badLen {
 		txn.Length = uint32(size + []int{-1, 1, 100}[rng.Intn(3)])
 	}
-	for _, signed := range []bool{true, false} {
-		t2 := txn
-		var err error
-		pan := guard(func() {
-			if signed {
-				err = t2.Verify()
-			} else {
-				err = t2.VerifyUnsigned()
+	// the rule set does not depend on the packages' exported switches for "checks for impossible conditions": every
+	// third transaction is judged a second time with all of them off
+	modes := []bool{false}
+	if rng.Intn(3) == 0 {
+		modes = append(modes, true)
+	}
+	for _, debugOff := range modes {
+		for _, signed := range []bool{true, false} {
+			t2 := txn
+			var err error
+			pan := guard(func() {
+				if debugOff {
+					cipher.DebugLevel1, cipher.DebugLevel2, coin.DebugLevel1, coin.DebugLevel2 = false, false, false, false
+					defer func() {
+						cipher.DebugLevel1, cipher.DebugLevel2, coin.DebugLevel1, coin.DebugLevel2 = true, true, true, true
+					}()
+				}
+				if signed {
+					err = t2.Verify()
+				} else {
+					err = t2.VerifyUnsigned()
+				}
+			})
+			r := rec{"fn": "verify", "signed": signed, "ins": insOf(&txn), "outs": outsOf(&txn), "sigKinds": kinds, "type": int(txn.Type),
+				"length": int(txn.Length), "size": size, "innerOK": !f.badInner, "res": "ok", "err": "", "panic": pan, "debugOff": debugOff}
+			if err != nil {
+				r["res"], r["err"] = "err", err.Error()
 			}
-		})
-		r := rec{"fn": "verify", "signed": signed, "ins": insOf(&txn), "outs": outsOf(&txn), "sigKinds": kinds, "type": int(txn.Type),
-			"length": int(txn.Length), "size": size, "innerOK": !f.badInner, "res": "ok", "err": "", "panic": pan}
-		if err != nil {
-			r["res"], r["err"] = "err", err.Error()
+			emit(r)
 		}
-		emit(r)
 	}
 }
 
@@ -704,11 +718,38 @@ func genSign() {
 	if err != nil {
 		log.Fatal(wtype, err)
 	}
+	// every second encrypted wallet is used the way the wallet service uses it: locked, (bip44: further addresses on both
+	// chains made from the public keys while it is locked), then unlocked with the password - signing happens on that copy
+	viaUnlock := encrypted && wtype != "xpub" && rng.Intn(2) == 0
+	lockedGen := 0
+	if viaUnlock {
+		w.SetCryptoType(crypto.CryptoTypeSha256Xor)
+		if err := w.Lock([]byte("pw")); err != nil {
+			log.Fatal(err)
+		}
+		if wtype == "bip44" {
+			for _, opts := range [][]wallet.Option{{wallet.OptionGenerateN(uint64(rng.Intn(3)))}, {wallet.OptionGenerateN(uint64(1 + rng.Intn(3))), wallet.OptionChange()}} {
+				as, err := w.GenerateAddresses(opts...)
+				if err != nil {
+					log.Fatal("generate while locked: ", err)
+				}
+				lockedGen += len(as)
+			}
+		}
+		uw, err := w.Unlock([]byte("pw"))
+		if err != nil {
+			log.Fatal("unlock: ", err)
+		}
+		w = uw
+	}
 	addrs, err := w.GetAddresses()
 	if err != nil || len(addrs) == 0 {
 		log.Fatal("no addresses", err)
 	}
 	entries, _ := w.GetEntries()
+	if lockedGen > 0 && rng.Intn(2) == 0 {
+		entries = entries[len(entries)-lockedGen:] // only the addresses made while locked
+	}
 	stranger := newOwner("stranger")
 	nIn := 1 + rng.Intn(4)
 	var txn coin.Transaction
@@ -736,7 +777,7 @@ func genSign() {
 	txn.Sigs = make([]cipher.Sig, nIn)
 	pre := make([]bool, nIn)
 	for i := 0; i < nIn; i++ {
-		if rng.Intn(4) == 0 && wtype != "xpub" {
+		if rng.Intn(4) == 0 && wtype != "xpub" && lockedGen == 0 {
 			// an existing signature (by the rightful owner, who may be the stranger)
 			k := secOf[i]
 			if (k == cipher.SecKey{}) {
@@ -767,7 +808,7 @@ func genSign() {
 	case 4:
 		idx = append(idx, rng.Intn(nIn+2)-1, rng.Intn(nIn)) // possibly out of range or duplicated
 	}
-	if encrypted && wtype != "xpub" {
+	if encrypted && wtype != "xpub" && !viaUnlock {
 		w.SetCryptoType(crypto.CryptoTypeSha256Xor) // the default scrypt parameters cost seconds per lock
 		if err := w.Lock([]byte("pw")); err != nil {
 			log.Fatal(err)
@@ -778,7 +819,7 @@ func genSign() {
 	var serr error
 	pan := guard(func() { out, serr = wallet.SignTransaction(w, &txn, idx, uxOuts) })
 	after, _ := txn.Serialize()
-	r := rec{"fn": "sign", "wtype": wtype, "encrypted": encrypted && wtype != "xpub", "nIns": nIn, "preSigned": pre, "owned": owned, "indexes": idx, "innerOK": innerOK,
+	r := rec{"fn": "sign", "wtype": wtype, "encrypted": encrypted && wtype != "xpub" && !viaUnlock, "viaUnlock": viaUnlock, "lockedGen": lockedGen, "nIns": nIn, "preSigned": pre, "owned": owned, "indexes": idx, "innerOK": innerOK,
 		"res": "ok", "err": "", "panic": pan, "inputUntouched": bytes.Equal(before, after),
 		"sigNonNull": []bool{}, "sigVerifies": []bool{}, "existingKept": true, "insSame": true, "outsSame": true, "innerSame": true}
 	if serr != nil || out == nil {
